@@ -35,3 +35,38 @@ def gen_footer_io(repo):
             "/-- does the function truncate the file after writing the new trailer? -/\n"
             "def truncates : Bool := ioOps.getLast? == some \"truncate\"\n"
             "end PqV.Gen.FooterIO\n")
+
+
+@register("AppendIO")
+def gen_append_io(repo):
+    """write_simple.write_to_file: does the append branch restore the saved footer when writing the
+    new row groups fails?  (ordered file-method calls inside the `except` handler + re-raise)"""
+    src = open(os.path.join(repo, "fastparquet", "writer.py")).read()
+    fn = find_func(ast.parse(src), "write_simple")
+    inner = [n for n in ast.walk(fn) if isinstance(n, ast.FunctionDef) and n.name == "write_to_file"]
+    if not inner:
+        raise Unsupported("write_to_file not found in write_simple")
+    inner = inner[0]
+    handler_ops, reraises = [], False
+    for node in ast.walk(inner):
+        if isinstance(node, ast.ExceptHandler):
+            calls = []
+            for n in ast.walk(node):
+                if isinstance(n, ast.Call) and isinstance(n.func, ast.Attribute) and isinstance(n.func.value, ast.Name) and n.func.value.id == "f":
+                    calls.append((n.lineno, n.col_offset, n.func.attr))
+                if isinstance(n, ast.Raise) and n.exc is None:
+                    reraises = True
+            handler_ops += [c[2] for c in sorted(calls)]
+    main_ops = io_calls(inner, extra_writers=("write_thrift", "make_row_group"))
+    lst = ", ".join('"%s"' % o for o in handler_ops)
+    mst = ", ".join('"%s"' % o for o in main_ops)
+    return ("-- REGENERATED on every run by tools/translate_callsites.py from fastparquet/writer.py — do not edit\n"
+            "namespace PqV.Gen.AppendIO\n"
+            f"/-- file-method calls of `write_simple.write_to_file` (line {inner.lineno}) in source order -/\n"
+            f"def ioOps : List String := [{mst}]\n"
+            "/-- file-method calls inside its exception handler -/\n"
+            f"def handlerOps : List String := [{lst}]\n"
+            f"def reraises : Bool := {'true' if reraises else 'false'}\n"
+            "/-- the append branch rolls the footer back on failure -/\n"
+            "def rollsBack : Bool := handlerOps == [\"seek\", \"write\", \"truncate\"] && reraises\n"
+            "end PqV.Gen.AppendIO\n")
